@@ -236,7 +236,7 @@ def _flat_vols(v):
     return vals
 
 
-def plan(op, geos):
+def plan(op, geos, lenient_comps=False):
     """-> dict(kind, steps, ...)
 
     steps: nominal sequence of ("rm", lab_index, real_well, volume_float) and
@@ -260,7 +260,11 @@ def plan(op, geos):
         else:
             comps = _comps(op)
             if comps is not None and len(comps) != len(wells):
-                raise PlanInvalid("compositions length")
+                if not lenient_comps:
+                    raise PlanInvalid("compositions length")
+                # the call was accepted although the compositions do not pair up with the wells: what it has to
+                # add to which well is still well-defined (the volumes), only the content is not
+                comps = None
             for i, (w, v) in enumerate(zip(wells, vols)):
                 steps.append(("add", li, w, v, comps[i] if comps is not None else None))
         return {"kind": k, "steps": steps, "ids": ids}
